@@ -415,6 +415,10 @@ class C20(Check):
                 if len(ans) >= 2:
                     out['add'] = _dump_analyser(ans[0] + ans[1])
                     out['whole2'] = _dump_analyser(_make(inp['kind'], objs[0] + objs[1], inp['wbc'], inp['ic']))
+                    # adding / merging must not change its operands: use them again afterwards
+                    out['add_again'] = _dump_analyser(ans[0] + ans[1])
+                out['merge_again'] = _dump_analyser(ts.merge_analysers(ans))
+                out['parts_after'] = [_dump_analyser(a) for a in ans]
                 return out
             return call(f)
         if case.kind == 'keyness':
@@ -683,6 +687,13 @@ class C20(Check):
             same(o['merge'], o['whole'], 'merge')
             if 'add' in o:
                 same(o['add'], o['whole2'], 'add')
+            if 'add_again' in o:
+                same(o['add_again'], o['whole2'], 'add-second-time')
+            if 'merge_again' in o:
+                same(o['merge_again'], o['whole'], 'merge-second-time')
+            for i, (before, after) in enumerate(zip(o['parts'], o.get('parts_after', o['parts']))):
+                if before != after:
+                    bad('operand-changed', f'analyser of part {i} changed by adding / merging: {before} -> {after}')
         elif case.kind == 'keyness':
             if 'err' in out:
                 bad('keyness-raises', f'compute_keyness raised {out["err"]}')
